@@ -23,8 +23,9 @@ BOUNDS = {
     'thorough': 'same with two groups and 3-entry histories for every list',
 }
 ASSUMPTIONS = [
-    'the reload JSON and the exported rows contain exactly the entries the live path accepted (the SQL that produces them is outside); only their ORDER is taken from the '
-    'real code: sort_by comparators of RoomNode::read / AuthorisationNode::read (interpreted) and the order_by directions of LOAD_QUERY (parsed from the constant)',
+    'the reload JSON contains exactly the entries the live path accepted (the SQL that produces it is outside); their ORDER and the filters are taken from LOAD_QUERY (parsed from '
+    'the constant). The export is assembled by the REAL RoomNode::read / AuthorisationNode::read / UserNode::read / EntityRightNode::read executed over a modelled store that answers '
+    'their two lookups (references by (source, label), rows by (id, entity)) from exactly the accepted rows',
     'a row and the reference that attaches it carry the same date (both are created by one mutation)',
     'entry rows are JSON objects holding exactly the fields the data model defines (uninterpreted JSON model)',
 ]
@@ -209,6 +210,53 @@ def build_room_node(ctx, w, ev):
                     admin_nodes=VecV([Cell(n) for e, n in rows]), auth_edges=VecV([Cell(e) for e in auth_edges]), auth_nodes=VecV([Cell(n) for n in auth_nodes]))
 
 
+def read_export(ctx, w, rn):
+    """the RoomNode the REAL RoomNode::read / AuthorisationNode::read / UserNode::read / EntityRightNode::read return when the database holds exactly
+    the rows and references of `rn` (references are found by (source, label), rows by (id, entity): the two lookups the real code performs)"""
+    edges, nodes = [], []
+
+    def add_list(es, ns, kind):
+        for ec, nc in zip(deref(es).elems, deref(ns).elems):
+            edges.append(ec.v)
+            nodes.append(w.field(nc.v, kind, 'node').v)
+    nodes.append(w.field(rn, 'RoomNode', 'node').v)
+    add_list(w.field(rn, 'RoomNode', 'admin_edges').v, w.field(rn, 'RoomNode', 'admin_nodes').v, 'UserNode')
+    for ec, ac in zip(deref(w.field(rn, 'RoomNode', 'auth_edges').v).elems, deref(w.field(rn, 'RoomNode', 'auth_nodes').v).elems):
+        edges.append(ec.v)
+        an = ac.v
+        nodes.append(w.field(an, 'AuthorisationNode', 'node').v)
+        add_list(w.field(an, 'AuthorisationNode', 'right_edges').v, w.field(an, 'AuthorisationNode', 'right_nodes').v, 'EntityRightNode')
+        add_list(w.field(an, 'AuthorisationNode', 'user_edges').v, w.field(an, 'AuthorisationNode', 'user_nodes').v, 'UserNode')
+        add_list(w.field(an, 'AuthorisationNode', 'user_admin_edges').v, w.field(an, 'AuthorisationNode', 'user_admin_nodes').v, 'UserNode')
+
+    def same(a, b):
+        r = s_eq(deref(a), deref(b))
+        if r is True or r is False:
+            return r
+        raise Unsupported('the export model needs concrete ids and labels')
+
+    def get_edges(ctx_, args):
+        src, label = deref(args[0]), deref(args[1])
+        return ok(VecV([Cell(clone_val(e)) for e in edges if same(w.field(e, 'Edge', 'src').v, src) and same(w.field(e, 'Edge', 'label').v, label)]))
+
+    def get_with_entity(ctx_, args):
+        nid, ent = deref(args[0]), deref(args[1])
+        for n in nodes:
+            if same(w.field(n, 'Node', 'id').v, nid) and same(w.field(n, 'Node', '_entity').v, ent):
+                return ok(some(clone_val(n)))        # Box<Node> stands for its content
+        return ok(none())
+    hooks = {ctx.method('Edge', 'get_edges').name: get_edges, ctx.method('Node', 'get_with_entity').name: get_with_entity}
+    ctx.call_hooks.update(hooks)
+    try:
+        res = ctx.exec_fn(ctx.method('RoomNode', 'read'), [Ref(Cell(Opaque('connection'))), Ref(Cell(deref(w.field(w.field(rn, 'RoomNode', 'node').v, 'Node', 'id').v)))])
+    finally:
+        for k in hooks:
+            ctx.call_hooks.pop(k, None)
+    if res.variant != 0 or res.fields[0].v.variant != 1:
+        raise Inconclusive('RoomNode::read did not return the room although its row is stored')
+    return res.fields[0].v.fields[0].v
+
+
 def load_query_directions(ctx):
     """{list name: dict(direction='asc'|'desc'|None, filters=[(field, literal)])} read from the LOAD_QUERY constant of the current tree.
     Only order_by(mdate ..) and `field = literal` filters are understood; anything else makes the check inconclusive."""
@@ -304,7 +352,9 @@ def reload_json(ctx, w, ev):
                   for (en, d, ms, ma) in ordered(ctx, filtered(ctx, ge.rights, dirs['rights']['filters'], 'right'), dirs['rights']['direction'], lambda t: t[1])]
         users = [user_obj(k, d, e, 'g%d_usr%d' % (gi, i)) for i, (k, d, e) in enumerate(ordered(ctx, filtered(ctx, ge.users, dirs['users']['filters'], 'user'), dirs['users']['direction'], lambda t: t[1]))]
         uads = [user_obj(k, d, e, 'g%d_uad%d' % (gi, i)) for i, (k, d, e) in enumerate(ordered(ctx, filtered(ctx, ge.user_admins, dirs['user_admin']['filters'], 'user'), dirs['user_admin']['direction'], lambda t: t[1]))]
-        auths.append(jv('obj', {'id': Cell(jv('str', idstr(ge.id, 'g%d_idstr' % gi))), 'mdate': Cell(jv('int', w.i64('g%d_mdate' % gi))),
+        gm = w.i64('g%d_mdate' % gi)
+        ge.row_mdate = gm            # the date of the group row itself (its last modification)
+        auths.append(jv('obj', {'id': Cell(jv('str', idstr(ge.id, 'g%d_idstr' % gi))), 'mdate': Cell(jv('int', gm)),
                                 'rights': Cell(arr(rights)), 'users': Cell(arr(users)), 'user_admin': Cell(arr(uads))}))
     room = jv('obj', {'id': Cell(jv('str', idstr(ev.id, 'room_idstr'))), 'mdate': Cell(jv('int', w.i64('room_mdate'))), 'room_id': Cell(jv('null')),
                       'admin': Cell(arr(admins)), 'authorisations': Cell(arr(auths))})
@@ -333,6 +383,9 @@ def decisions_equal(ctx, w, room_a, room_b, prefer=None, prefer_last=None):
             if prefer is not None:
                 # a witness the public API can replay: the local user asks about itself, about entity E
                 m2 = ctx.check_sat(zand(d, prefer, seq(key, ADMIN), seq(ent, S(lit='E')), date.z() > prefer_last.z() if prefer_last is not None else True))
+                if m2 is None:
+                    # any moment of the history: the native replay compares the rebuilt rooms around every entry date
+                    m2 = ctx.check_sat(zand(d, prefer))
                 if m2 is not None:
                     return label, m2, dict(key=key, entity=ent, date=date, preferred=True)
             return label, m, dict(key=key, entity=ent, date=date)
@@ -355,6 +408,11 @@ def api_replayable(ev):
     for a, b in zip(seq_dates, seq_dates[1:]):
         cs.append(a.z() < b.z())
     ev.last_date = seq_dates[-1] if seq_dates else None
+    # every mutation of a group re-dates the group row: through the API it carries the date of the group's last entry
+    for ge in ev.groups:
+        gd = [d for (_, d, _) in ge.users] + [d for (_, d, _) in ge.user_admins] + [d for (_, d, _, _) in ge.rights]
+        if gd and getattr(ge, 'row_mdate', None) is not None:
+            cs.append(ge.row_mdate.z() == gd[-1].z())
     return zand(*cs)
 
 
@@ -375,6 +433,8 @@ def explore(ctx, shape, tier, report):
         try:
             if which == 'import':
                 rn = build_room_node(ctx, w, ev)
+                # what is exported is what the real read functions assemble from those rows (which label feeds which list, which entity each row is read as)
+                rn = read_export(ctx, w, rn)
                 res = ctx.exec_fn(ctx.func('prepare_new_room'), [Ref(Cell(rn))])
                 if res.variant != 0:
                     report.path(False)
@@ -436,8 +496,7 @@ def scenario(ctx, m, kind, info):
         sc['query'] = dict(key=c.atom(q['key']), entity=c.atom(q['entity']), date=c.int(q['date']), what=info['difference'])
         sc['expect'] = dict(decisions_differ=True)
         # natively the comparison needs a successful reload: only single-entry histories can show it through the API
-        single = all(len(set(x)) == len(x) for x in (info['history']['admins'], info['history']['users'], info['history']['user_admins'], info['history']['rights']))
-        sc['preferred'] = bool(q.get('preferred')) and single
+        sc['preferred'] = bool(q.get('preferred'))
     sc['what'] = '%s (history %s)' % (kind, info['history'])
     sc['signature'] = kind + (':' + info['difference'].split(':')[0] if 'difference' in info else '')
     return sc
